@@ -69,8 +69,12 @@ impl Kind {
     }
 }
 
+/// A write that demonstrably happens after the engine itself has noticed the cut: the running
+/// flag is already clear. (Neither "clock fired" nor "nodes >= budget" is used: an engine that
+/// polls the clock or the budget only every N nodes notices later, and what it writes until
+/// then comes from completely searched subtrees. Those cuts are judged by the prefix oracle.)
 fn aborted(w: &TtWrite) -> bool {
-    w.node_budget.is_some_and(|b| w.nodes >= b) || !w.running || w.clock_fired
+    !w.running
 }
 
 fn same(a: &TtWrite, b: &TtWrite) -> bool {
@@ -95,9 +99,33 @@ fn describe(w: &TtWrite) -> String {
 
 /// The C13 oracle for one interrupted run against the uninterrupted one.
 pub fn judge(full: &[TtWrite], cut: &Out) -> Option<String> {
+    judge_kind(full, cut, true)
+}
+
+/// `stop_cut`: the interruption was an emulated stop (noticed by the very poll that delivers it),
+/// so the cache snapshot taken at that moment must equal the final cache. For clock cuts the
+/// snapshot is not used: a legitimately coarser polling of the clock notices later.
+pub fn judge_kind(full: &[TtWrite], cut: &Out, stop_cut: bool) -> Option<String> {
     if let Some(p) = &cut.panicked {
         // a panic is judged by C09 (no bestmove); for C13 only the writes matter
         let _ = p;
+    }
+    // independent of the observed insert sites: nothing in the cache may change once an injected
+    // stop / clock expiry has taken effect
+    if let (true, Some(at_cut)) = (stop_cut, &cut.cache_at_cut) {
+        if *at_cut != cut.cache_at_end {
+            let changed = cut
+                .cache_at_end
+                .iter()
+                .find(|(k, e)| !at_cut.iter().any(|(k2, e2)| k2 == k && e2 == e))
+                .map(|(k, e)| format!("key {k} score {} depth {} bound {:?} move {}", e.score, e.depth, e.bound, e.best_ply.to_notation()))
+                .unwrap_or_else(|| "an entry disappeared".into());
+            return Some(format!(
+                "the cache changed after the search had been cut: {} entries at the cut, {} at the end, e.g. {changed}",
+                at_cut.len(),
+                cut.cache_at_end.len()
+            ));
+        }
     }
     for (n, w) in cut.writes.iter().enumerate() {
         if aborted(w) {
@@ -144,6 +172,57 @@ fn pairs(tier: &str) -> (Vec<Pair>, u64, u64) {
     (v, cap_nodes, cap_other)
 }
 
+/// Fork sweep: EVERY flag poll of one (possibly large) search as a stop point, at the cost of one
+/// search plus one fork per poll. The child is cut at its poll, unwinds, and is judged here:
+/// no cache write may be observed after the cut and the cache contents must equal the snapshot
+/// taken at the cut. Polls whose child fails are re-run the classical way (StopAt) for the report.
+fn fork_sweep(w: &Worker, p: &SPos, depth: u8) {
+    let Ok((board, _, _)) = searchrun::open(p.fen, &spos::hist(p)) else { return };
+    let opts = Opts { clear_cache: true, observe: true, neutral: false };
+    let case = Kind::Stop.case(p, depth, 0);
+    let base = searchrun::run(&board, &case, &opts);
+    if base.panicked.is_some() || base.running_calls == 0 {
+        return;
+    }
+    let k_max = base.running_calls;
+    let per = k_max.div_ceil(w.nshards as u64);
+    let lo = 1 + per * w.shard as u64;
+    let hi = (lo + per - 1).min(k_max);
+    if lo > hi {
+        return;
+    }
+    crate::rce_verif::fork_range(lo, hi);
+    let out = searchrun::run(&board, &case, &opts);
+    if let Some((_k, writes_at_cut)) = crate::rce_verif::fork_child() {
+        let late_write = out.writes.len() as u64 > writes_at_cut;
+        let changed = out.cache_at_cut.as_ref().is_some_and(|c| *c != out.cache_at_end);
+        crate::rce_verif::fork_exit(i32::from(late_write || changed || out.panicked.is_some()));
+    }
+    let (done, failed) = crate::rce_verif::fork_results();
+    crate::rce_verif::fork_range(0, 0);
+    if crate::rce_verif::fork_errors() > 0 || done != hi - lo + 1 {
+        w.info("machinery", &format!("fork sweep of {} depth {depth} incomplete: {done} of {} children ran, {} fork() failures", p.fen, hi - lo + 1, crate::rce_verif::fork_errors()));
+    }
+    w.count("cut_runs", done);
+    w.count("cut_runs:stop-by-fork", done);
+    w.count("fork_sweeps", 1);
+    w.max("largest_T_fork_sweep", base.nodes);
+    if w.shard == 0 {
+        w.info(&format!("fork:{}:d{depth}", p.name), &format!("T={} polls={k_max}", base.nodes));
+    }
+    for k in failed.into_iter().take(5) {
+        let c = Kind::Stop.case(p, depth, k);
+        let again = searchrun::run(&board, &c, &opts);
+        let why = judge(&base.writes, &again).unwrap_or_else(|| "the forked child reported a violation that the re-execution does not show".to_string());
+        let mut r = c.json();
+        if let J::Obj(v) = &mut r {
+            v.push(("cut_kind".into(), s("stop")));
+            v.push(("cut_point".into(), i(k)));
+        }
+        w.violation(&format!("{}|stop-fork|d{depth}|{k}", p.name), &format!("{} depth {depth} stop at flag poll {k}/{k_max}: {why}", p.fen), &r);
+    }
+}
+
 pub fn worker(args: &Args, w: &Worker) -> i32 {
     searchrun::quiet_panics();
     let (ps, cap_nodes, cap_other) = pairs(&args.tier);
@@ -167,6 +246,21 @@ pub fn worker(args: &Args, w: &Worker) -> i32 {
                 Kind::Stop => base.running_calls,
                 _ => base.clock_calls,
             };
+            // every entry the uninterrupted search left in the cache must have been seen by the
+            // observer hook; otherwise an insert site exists that the hooks do not cover and the
+            // write-level oracle would be blind to it (machinery error, not a verdict)
+            if kind == Kind::Nodes {
+                let unseen = {
+                    let tt = crate::board::transposition_table::TRANSPOSITION_TABLE.read().unwrap_or_else(|e| e.into_inner());
+                    tt.iter().filter(|(k, e)| !base.writes.iter().any(|wr| wr.key == k.rce_verif_u64() && wr.entry == **e)).count()
+                };
+                if unseen > 0 && idx % w.nshards == w.shard {
+                    // not a verdict: the write-level oracle stays sound for the hooked sites, and the
+                    // content-level oracle (stop / clock cuts) covers every site; node-budget cuts of
+                    // the unhooked site are not covered, which the evidence says
+                    w.count("cache_entries_written_by_an_unhooked_insert_site", unseen as u64);
+                }
+            }
             if idx % w.nshards == w.shard {
                 w.count("pairs_x_kinds", 1);
                 w.max("largest_T", base.nodes);
@@ -201,7 +295,7 @@ pub fn worker(args: &Args, w: &Worker) -> i32 {
                         ("writes_uninterrupted", i(base.writes.len() as u64)),
                     ]));
                 }
-                if let Some(why) = judge(&base.writes, &out) {
+                if let Some(why) = judge_kind(&base.writes, &out, kind == Kind::Stop) {
                     let mut r = c.json();
                     if let J::Obj(v) = &mut r {
                         v.push(("cut_kind".into(), s(kind.name())));
@@ -241,6 +335,24 @@ pub fn worker(args: &Args, w: &Worker) -> i32 {
             }
         }
     }
+    // large searches: every stop point through fork-based checkpointing
+    let thorough = args.tier == "thorough";
+    for p in P9.iter().take(if thorough { P9.len() } else { 8 }) {
+        let maxd: u8 = if thorough { 6 } else { 5 };
+        for depth in 3..=maxd {
+            // size of the uninterrupted search decides whether this pair is swept
+            let Ok((board, _, _)) = searchrun::open(p.fen, &spos::hist(p)) else { continue };
+            let probe = searchrun::run(&board, &Kind::Stop.case(p, depth, 0), &Opts { clear_cache: true, observe: false, neutral: false });
+            let cap = if thorough { 1_500_000 } else { 30_000 };
+            if probe.panicked.is_some() || probe.nodes > cap {
+                break;
+            }
+            if probe.nodes <= cap_other {
+                continue; // already enumerated the classical way above
+            }
+            fork_sweep(w, p, depth);
+        }
+    }
     w.done()
 }
 
@@ -253,6 +365,13 @@ pub fn run(args: &Args) -> i32 {
             return 2;
         }
     };
+    if let Some(m) = merged.infos.get("machinery") {
+        eprintln!("MACHINERY: {m}");
+        return 2;
+    }
+    if merged.get("cache_entries_written_by_an_unhooked_insert_site") > 0 {
+        eprintln!("WARNING: the engine writes cache entries at a site the observer hooks do not cover; node-budget cuts are judged for the hooked sites only");
+    }
     let caps: Vec<u64> = merged.infos.get("caps").map(|t| t.split_whitespace().filter_map(|x| x.parse().ok()).collect()).unwrap_or_default();
     let (cap_nodes, cap_other, npairs) = (caps.first().copied().unwrap_or(0), caps.get(1).copied().unwrap_or(0), caps.get(2).copied().unwrap_or(0));
     let runs = merged.get("cut_runs");
@@ -304,7 +423,7 @@ pub fn replay(doc: &J) -> i32 {
         } else {
             (searchrun::run(&board, &base_case, &opts), searchrun::run(&board, &case, &opts))
         };
-        verdicts.push(judge(&base.writes, &out));
+        verdicts.push(judge_kind(&base.writes, &out, kind == Kind::Stop));
     }
     if verdicts[0] != verdicts[1] {
         eprintln!("MACHINERY: replay not reproducible");
